@@ -59,6 +59,9 @@ def base_model(variant=0):
     wn.add_valve("V6", "J3", "J8", diameter=0.25, valve_type="GPV", initial_setting="hl")
     wn.get_link("V1").vertices = [(55.0, 2.0)]
     wn.get_link("V2").tag = "ctrl-valve"
+    # overflow flags in every combination with a volume curve over the variants: (plain, curve) = (no, no), (yes, yes), (no, yes)
+    wn.get_node("T1").overflow = variant == 1
+    wn.get_node("T2").overflow = variant in (1, 2)
     if variant in (0, 1):
         wn.get_node("J7").add_leak(wn, area=0.001, discharge_coeff=0.7)
         wn.get_node("T1").add_leak(wn, area=0.002, discharge_coeff=0.6)
